@@ -42,7 +42,7 @@ func newDriver(p *core.Property, tier string) *core.Driver {
 		BinPlain: core.Getenv("VERIF_BIN_PLAIN", self),
 		BinRace:  core.Getenv("VERIF_BIN_RACE", self),
 		Jobs:     jobs,
-		WorkDir:  filepath.Join(core.Getenv("VERIF_WORK", "/verif/.build/run"), fmt.Sprintf("%s-%d", p.ID, os.Getpid())),
+		WorkDir:  filepath.Join(core.Getenv("VERIF_WORK", filepath.Join(core.VerifDir, ".build", "run")), fmt.Sprintf("%s-%d", p.ID, os.Getpid())),
 	}
 }
 
